@@ -574,7 +574,8 @@ ToReflectValue(v, k) ==
       [] k = "float64" -> POK(GFlt(k, NumOfJ(v)))
       [] k = "string" -> POK(GStr(StrOfJ(v)))
       [] k = "iface" ->
-            IF v.t \in {"undef", "null"} THEN POK([k |-> "invalid"])               \* reflect.ValueOf(nil): the zero reflect.Value
+            IF v.t \in {"undef", "null"} /\ D("D16_element_write_error_not_catchable")
+            THEN POK([k |-> "invalid"])                   \* reflect.ValueOf(nil), the zero reflect.Value, is stored as it is
             ELSE POK(GX(ExportX(v)))
 
 (* storing the zero reflect.Value: reflect.Value.Set / reflect.Append panic with a *reflect.ValueError *)
